@@ -9,6 +9,12 @@ import (
 // harnesses express instants relative to time.Now() with wide margins.
 const engineT0 = int64(1893456000)
 
+type wallDeadline struct {
+	at    int64
+	fn    Value
+	fired bool
+}
+
 func (p *Path) wallNow() int64 {
 	if v, ok := p.natives["wall"]; ok {
 		return v.(int64)
@@ -26,6 +32,25 @@ func init() {
 		if d.IsConst() {
 			p.natives["wall"] = p.wallNow() + signExt(d.Val, 64)/1e9
 		}
+		// wall-clock deadlines registered by the harness (zz.AfterWall) fire when modelled time passes them
+		if dl, ok := p.natives["walldeadlines"].([]*wallDeadline); ok {
+			for _, w := range dl {
+				if !w.fired && p.wallNow() >= w.at {
+					w.fired = true
+					p.call(w.fn, nil, nil, 0)
+				}
+			}
+		}
+		return nil
+	})
+	// zz.AfterWall(d, f): f runs once the modelled wall clock has advanced by d (natively: time.AfterFunc)
+	reg(zzPkg+".AfterWall", func(p *Path, fn *ssa.Function, a []Value) Value {
+		d := a[0].(*Term)
+		if !d.IsConst() {
+			p.unsupported("AfterWall with a symbolic duration")
+		}
+		dl, _ := p.natives["walldeadlines"].([]*wallDeadline)
+		p.natives["walldeadlines"] = append(dl, &wallDeadline{at: p.wallNow() + signExt(d.Val, 64)/1e9, fn: a[1]})
 		return nil
 	})
 	reg("time.After", func(p *Path, fn *ssa.Function, a []Value) Value {
